@@ -371,3 +371,41 @@ def task_literal_tokens():
         notes.append('%s: %d paths' % (tag, len(ex.paths)))
     return result(obs, [source.describe(P.EP + ':ExpressionPrinter.visit_BinOp'), source.describe(P.EP + ':ExpressionPrinter.visit_UnaryOp'),
                         source.describe(P.EP + ':ExpressionPrinter.visit_Constant')], ASSUMPTIONS, notes=notes)
+
+
+def task_compare_ast_constants():
+    """ast_compare.compare_ast on two Constant nodes with symbolic values: it returns normally only if value AND type agree (C02: 1, 1.0 and True are
+    different constants; the f-string printer filters its candidate texts with this function)."""
+    P.install_symconst_type_support()
+    install_symconst_pair_support()
+    mod = source.import_module('python_minifier.ast_compare')
+    name = 'C02/L3/compare_ast'
+
+    def run(ctx):
+        policy = FoldPolicy() if 'FoldPolicy' in globals() else P.PrinterPolicy()
+        interp = Interp(ctx, policy=policy)
+        policy.interp = interp
+        a = ctx.new_node({'Constant'}, name='left')
+        b = ctx.new_node({'Constant'}, name='right')
+        va, vb = interp.getattr(a, 'value'), interp.getattr(b, 'value')
+        # kind is a free string-or-None field that compare_ast skips for constants
+        raised = None
+        try:
+            interp.call(interp.wrap(mod.compare_ast), [a, b], {})
+        except Raised as e:
+            raised = e.exc
+        norm = lambda k: z3.If(k == 2, z3.IntVal(1), k)        # True and False are both bool
+        same_kind = norm(va.kind) == norm(vb.kind)
+        if raised is None:
+            ctx.check(name + '/constants-accepted-only-when-their-types-agree', same_kind, kind='post',
+                      detail='compare_ast(Constant(x), Constant(y)) returned normally')
+        else:
+            ctx.check(name + '/cover-rejected', True, kind='cover')
+    ex = Explorer(max_paths=3000)
+    ex.explore(run)
+    res = result([o.to_json() for o in ex.obligations], [source.describe('python_minifier.ast_compare:compare_ast')], ASSUMPTIONS)
+    if ex.undecided_reason:
+        res['obligations'].append({'name': name + '/engine', 'status': 'undecided', 'detail': ex.undecided_reason, 'model': {}, 'time_s': 0, 'backend': 'engine', 'path': None,
+                                   'kind': 'engine', 'goal': None})
+    res['notes'].append('%s: %d feasible paths' % (name, len([p for p in ex.paths if p[0] == 'ok'])))
+    return res
